@@ -228,4 +228,20 @@ def make_workloads():
             return [isinstance(Z(k, 5, k), ABA), isinstance(Z(k, 5, k + 1), ABA), isinstance(Z(k + 1, k), ADA), bindings_text()]
         return run
 
-    return {"call": w_call, "ctx": w_ctx, "tree": w_tree, "small": w_small, "free": w_free}
+    # ONE decorated function called by every thread (whatever the wrapper keeps per function is shared by them)
+    @jaxtyped(typechecker=typechecked)
+    def shared_fn(x: Float[np.ndarray, "a"], r) -> Float[np.ndarray, "a"]:
+        return r
+
+    def w_shared(k):
+        def run():
+            out = []
+            for r in (Z(k), Z(k + 1), Z(k)):
+                try:
+                    out.append(shared_fn(Z(k), r) is r)
+                except TypeCheckError:
+                    out.append("rejected")
+            return out
+        return run
+
+    return {"call": w_call, "ctx": w_ctx, "tree": w_tree, "small": w_small, "free": w_free, "shared": w_shared}
